@@ -188,6 +188,8 @@ struct guard_region
 static guard_region g_guard[64];
 static std::atomic<int> g_nguard{0};
 static std::atomic<int> g_released{0};
+static guard_region g_opguard[64];    // operation states of self-deleting consumers (see below)
+static std::atomic<int> g_nopguard{0};
 
 template <class T>
 struct guard_alloc
@@ -231,12 +233,32 @@ static void on_segv(int, siginfo_t* si, void*)
     int n = g_nguard.load();
     for (int i = 0; i < n && i < 64; ++i)
         if (si->si_addr >= g_guard[i].p && si->si_addr < static_cast<char*>(g_guard[i].p) + g_guard[i].n) guarded = true;
+    n = g_nopguard.load();
+    for (int i = 0; i < n && i < 64; ++i)
+        if (si->si_addr >= g_opguard[i].p && si->si_addr < static_cast<char*>(g_opguard[i].p) + g_opguard[i].n) guarded = true;
     if (g_ctl != nullptr)
         for (auto const& l : g_ctl->log) std::puts(l.c_str());
     std::puts(guarded ? "0 life.touch-after-release 0 0 0" : "0 life.segv 0 0 0");
     std::puts("end crash");
     std::fflush(stdout);
     _exit(0);
+}
+
+// Operation states of self-deleting consumers live in guarded memory too (one mmap each, PROT_NONE once
+// deleted): adaptor code that touches a consumer's operation state - or, for when_all with life=1, the
+// when_all operation state - after the completion call that destroyed it faults like a touch of the shared state.
+static void* op_guard_new(std::size_t n)
+{
+    std::size_t bytes = ((n + 4095) / 4096) * 4096;
+    void* p = mmap(nullptr, bytes, PROT_READ | PROT_WRITE, MAP_PRIVATE | MAP_ANONYMOUS, -1, 0);
+    if (p == MAP_FAILED) throw std::bad_alloc();
+    int i = g_nopguard.fetch_add(1);
+    if (i < 64) g_opguard[i] = {p, bytes};
+    return p;
+}
+static void op_guard_delete(void* p, std::size_t n) noexcept
+{
+    mprotect(p, ((n + 4095) / 4096) * 4096, PROT_NONE);
 }
 
 template <class S>
@@ -281,12 +303,24 @@ struct self_deleting_op
       : op(ex::connect(std::move(s), self_deleting_recv<S>{this, k}))
     {
     }
+    static void* operator new(std::size_t n) { return op_guard_new(n); }
+    static void operator delete(void* p, std::size_t n) noexcept { op_guard_delete(p, n); }
 };
 template <class S>
 static void start_self_deleting(S&& s, int k)
 {
     auto* h = new self_deleting_op<std::decay_t<S>>(std::move(s), k);
     ex::start(h->op);
+}
+
+// Reference count of the shared state once the set-up (construction of the adaptor, copies for the consumers,
+// destruction of the handle) is through: first line of the log, `0 life.init <obj> <count> 0`.  The hooks
+// sh.ref / sh.unref / sh.free log every later change, so the driver's ownership model starts from this count.
+template <class State>
+static void note_init(controller* ctl, State* st)
+{
+    ctl->name_obj(st);
+    ctl->logf(0, "life.init", ctl->obj(st), static_cast<long>(st->reference_count), 0);
 }
 
 // ---------------------------------------------------------------- CASES
@@ -320,6 +354,27 @@ static std::function<void()> make_when_all(std::vector<trigger*> const& trg, std
     return [op] { ex::start(*op); };
 }
 
+// when_all with life=1: the when_all operation state is self-deleting (destroyed inside the completion call of
+// the downstream receiver, by whichever predecessor thread finishes last) and lives in guarded memory
+template <std::size_t... Is>
+static std::function<void()> make_when_all_life(std::vector<trigger*> const& trg, std::index_sequence<Is...>)
+{
+    auto snd = ex::when_all(manual_sender<int>{trg[Is]}...);
+    using S = decltype(snd);
+    auto* h = new self_deleting_op<S>(std::move(snd), 0);
+    return [h] { ex::start(h->op); };
+}
+
+static void install_segv_handler()
+{
+    struct sigaction sa;
+    std::memset(&sa, 0, sizeof(sa));
+    sa.sa_sigaction = on_segv;
+    sa.sa_flags = SA_SIGINFO;
+    sigaction(SIGSEGV, &sa, nullptr);
+    sigaction(SIGBUS, &sa, nullptr);
+}
+
 static void run_one(case_t const& c)
 {
     std::signal(SIGABRT, on_abort);
@@ -338,7 +393,14 @@ static void run_one(case_t const& c)
         if (n < 2) n = 2;
         if (n > 4) n = 4;
         for (int i = 0; i < n; ++i) trg.push_back(new trigger{i});
-        if (n == 2) start_wa = make_when_all(trg, std::make_index_sequence<2>{});
+        if (c.geti("life", 0) != 0)
+        {
+            install_segv_handler();
+            if (n == 2) start_wa = make_when_all_life(trg, std::make_index_sequence<2>{});
+            else if (n == 3) start_wa = make_when_all_life(trg, std::make_index_sequence<3>{});
+            else start_wa = make_when_all_life(trg, std::make_index_sequence<4>{});
+        }
+        else if (n == 2) start_wa = make_when_all(trg, std::make_index_sequence<2>{});
         else if (n == 3) start_wa = make_when_all(trg, std::make_index_sequence<3>{});
         else start_wa = make_when_all(trg, std::make_index_sequence<4>{});
     }
@@ -368,7 +430,9 @@ static void run_one(case_t const& c)
                     if ((op.name == "consume" || op.name == "discard") && !op.args.empty() &&
                         (*mine)[std::size_t(op.args[0]) & 3] == nullptr)
                         (*mine)[std::size_t(op.args[0]) & 3] = new S(*s);
+            auto* st0 = s->state.get();
             delete s;    // the handle the user got is gone before anything starts
+            note_init(ctl, st0);
             consume = [mine](int kk) {
                 S* x = (*mine)[std::size_t(kk) & 3];
                 (*mine)[std::size_t(kk) & 3] = nullptr;
@@ -386,6 +450,7 @@ static void run_one(case_t const& c)
         {
             auto* s = new auto(ex::ensure_started(manual_sender<int>{t0}, guard_alloc<int>{}));
             ctl->name_obj(s->state.get());
+            note_init(ctl, s->state.get());
             consume = [s](int kk) {
                 start_self_deleting(std::move(*s), kk);
                 delete s;
@@ -399,6 +464,7 @@ static void run_one(case_t const& c)
             auto* e0 = new auto(std::get<0>(std::move(*tup)));
             auto* e1 = new auto(std::get<1>(std::move(*tup)));
             delete tup;
+            note_init(ctl, e0->state.get());
             consume = [e0, e1](int kk) {
                 if (kk == 0)
                 {
@@ -421,6 +487,7 @@ static void run_one(case_t const& c)
         {
             auto* s = new auto(ex::split(manual_sender<int>{t0}));
             ctl->name_obj(s->state.get());
+            note_init(ctl, s->state.get());
             consume = [s](int kk) {
                 auto copy = *s;
                 auto* op = new auto(ex::connect(std::move(copy), term_recv{kk}));
@@ -432,6 +499,7 @@ static void run_one(case_t const& c)
             // starts the leaf right here: the trigger is armed during setup
             auto* s = new auto(ex::ensure_started(manual_sender<int>{t0}));
             ctl->name_obj(s->state.get());
+            note_init(ctl, s->state.get());
             consume = [s](int kk) {
                 auto* op = new auto(ex::connect(std::move(*s), term_recv{kk}));
                 ex::start(*op);
@@ -441,6 +509,7 @@ static void run_one(case_t const& c)
         {
             auto* tup = new auto(ex::split_tuple(manual_sender<std::tuple<int, int>>{t0}));
             ctl->name_obj(std::get<0>(*tup).state.get());
+            note_init(ctl, std::get<0>(*tup).state.get());
             consume = [tup](int kk) {
                 if (kk == 0)
                 {
